@@ -151,7 +151,7 @@ class Ctx:
             os.makedirs(REPLAY_DIR, exist_ok=True)
         for i, v in enumerate(unlisted):
             path = os.path.join(REPLAY_DIR, f"{self.prop}-{i}.json")
-            if code == 0:
+            if code == 0 and not os.environ.get("SA_NO_EVIDENCE"):
                 try:
                     os.makedirs(REPLAY_DIR, exist_ok=True)
                     with open(path, "w") as f:
@@ -168,7 +168,7 @@ class Ctx:
         if unlisted and code == 0:
             code = 1
         wall = time.time() - self.t0
-        if write_evidence:
+        if write_evidence and not os.environ.get("SA_NO_EVIDENCE"):
             self._write_evidence(wall, len(unlisted), len(listed), code)
         if not self.quiet:
             n_ok = sum(1 for o in self.obligations if o["ok"])
